@@ -581,6 +581,8 @@ def make_case(seed, tier="quick", nthreads=None, sweep=False):
         p_sw = kn_rng.choice([0.02, 0.1, 0.3, 0.6])
         schedule = [(sch_rng.randrange(nthreads) if sch_rng.random() < p_sw else -1) for _ in range(4000)]
     case = {"seed": seed, "mode": mode, "threads": threads, "schedule": schedule, "impl": "real"}
+    if nthreads > 1 and kn_rng.random() < 0.5:
+        case["spawn_reg"] = gen_init(ops_rng, "arith")
     if sweep:
         case["sweep"] = True
     return case
@@ -657,8 +659,18 @@ def run_plain(case):
                 sched.finish(tid)
 
         ths = [threading.Thread(target=body, args=(t,), name="sim-%d" % t, daemon=True) for t in range(n)]
-        for th in ths:
-            th.start()
+        # a new thread inherits the creator's MXCSR: spawn the workers while the creator holds a seeded
+        # (legal) register value, so that a thread's "value on entry" is not always the default
+        spawn_reg = case.get("spawn_reg")
+        creator_saved = obs.read()
+        if spawn_reg is not None:
+            obs.write(spawn_reg)
+            out["probes"]["threads_spawned_under_non_default_register"] = 1
+        try:
+            for th in ths:
+                th.start()
+        finally:
+            obs.write(creator_saved & 0xFFFF)
         sched.start()
         sched.done.acquire()
         for th in ths:
@@ -766,6 +778,10 @@ def _variants(case):
     if case.get("schedule"):
         c = copy.deepcopy(case)
         c["schedule"] = [-1] * len(case["schedule"])
+        yield c
+    if case.get("spawn_reg") is not None:
+        c = copy.deepcopy(case)
+        c["spawn_reg"] = None
         yield c
     for t in range(len(thr)):
         if thr[t].get("init") is not None:
